@@ -487,6 +487,7 @@ fn script_case(script: &str) -> String {
                 }
                 let retention = d.data_retention_count();
                 let before = sections(&d, &roots, retention, &syms, None);
+                let snapshot = d.clone();
                 match catch_unwind(AssertUnwindSafe(|| d.optimize(&roots))) {
                     Ok(Ok(map)) => {
                         for (h, m) in root_handles.iter().zip(map.iter()) {
@@ -497,7 +498,8 @@ fn script_case(script: &str) -> String {
                         out.push(format!("{}:opt ok M=[{}] {} BEFORE{{{}}} AFTER{{{}}}", n, m.join(","), dump(&d), before, after));
                     }
                     Ok(Err(e)) => {
-                        fail(&mut out, &format!("err E<{}>", e.to_string().replace('>', ")")));
+                        // U<1>: the failed call left the whole store exactly as it was
+                        fail(&mut out, &format!("err E<{}> U<{}>", e.to_string().replace('>', ")"), if d == snapshot { 1 } else { 0 }));
                         break;
                     }
                     Err(_) => {
